@@ -3,6 +3,7 @@
      PublishValsetToChain / justInTimeValsetUpdate / deploySmartContractToChain).
     Definitions only; proofs are in CompassProofs.v.  Constants and the two shape flags come from
     the translator (Gen/C10.v), so the model follows the source. *)
+From Coq Require Import String.
 From Coq Require Import List ZArith Bool.
 From Paloma Require Import Base.Num Valset.Snapshot.
 From Paloma Require Gen.C10.
@@ -25,12 +26,14 @@ Fixpoint insert_desc (x : snapval) (l : list snapval) : list snapval :=
 Definition sort_desc (l : list snapval) : list snapval :=
   fold_left (fun acc x => insert_desc x acc) l [].
 
-(** strings.ToLower(chainType) == "evm" && chainReferenceID == c *)
-Definition on_chain (c : Z) (e : extinfo) : bool := ei_evm e && (ei_chain e =? c).
+(** strings.ToLower(ext.GetChainType()) == xchainType (the translator reads the constant: "evm") *)
+Definition ei_evm (e : extinfo) : bool := String.eqb (to_lower (ei_type e)) Gen.C10.xchain_type.
+(** ... && ext.GetChainReferenceID() == chainReferenceID: the reference id is compared exactly *)
+Definition on_chain (c : string) (e : extinfo) : bool := ei_evm e && String.eqb (ei_chain e) c.
 
 (** The validator's accounts on chain [c] that produce an entry: all matching ones, or only the
     first when the loop stops at the first match (translator flag). *)
-Definition accounts_on (c : Z) (v : snapval) : list extinfo :=
+Definition accounts_on (c : string) (v : snapval) : list extinfo :=
   let m := filter (on_chain c) (v_infos v) in
   if Gen.C10.account_match_stops_at_first then firstn 1 m else m.
 
@@ -39,16 +42,16 @@ Definition accounts_on (c : Z) (v : snapval) : list extinfo :=
 Definition power_of (share total : Z) : Z :=
   if (total <=? 0) || (share <? 0) then 0 else u64 (share * max_power / total).
 
-Definition entries (c total : Z) (v : snapval) : list (Z * Z) :=
+Definition entries (c : string) (total : Z) (v : snapval) : list (Z * Z) :=
   map (fun e => (ei_addr e, power_of (v_share v) total)) (accounts_on c v).
 
 (** transformSnapshotToCompass: (remote address, power) in the order sent; the total is summed
     over all validators of the snapshot, not only those with an account on [c]. *)
-Definition transform_vals (vals : list snapval) (c : Z) : list (Z * Z) :=
+Definition transform_vals (vals : list snapval) (c : string) : list (Z * Z) :=
   let vs := sort_desc vals in
   let total := zsum (map v_share vs) in
   flat_map (entries c total) vs.
-Definition transform (sn : snapshot) (c : Z) : list (Z * Z) := transform_vals (sn_vals sn) c.
+Definition transform (sn : snapshot) (c : string) : list (Z * Z) := transform_vals (sn_vals sn) c.
 
 (** isEnoughToReachConsensus: uint64 running sum (wraps), compared with the constant. *)
 Definition sum_u64 (powers : list Z) : Z := fold_left (fun s p => u64 (s + p)) powers 0.
@@ -57,8 +60,8 @@ Definition is_enough (powers : list Z) : bool := threshold <=? sum_u64 powers.
 (** Histories: valset operations plus "try to send snapshot [id] to chain [c]" (every sender in the
     evm keeper has this shape: transform, gate on isEnoughToReachConsensus, then — depending on chain
     activity, keep-warm period, relayer selection, queue state, all abstracted as [env_ok] — enqueue). *)
-Record cstate := { cs_val : state; cs_sent : list (Z * Z * list (Z * Z)) }.
-Inductive cop := CValset (o : op) | CSend (id c : Z) (env_ok : bool).
+Record cstate := { cs_val : state; cs_sent : list (string * Z * list (Z * Z)) }.
+Inductive cop := CValset (o : op) | CSend (id : Z) (c : string) (env_ok : bool).
 
 Definition cinit : cstate := {| cs_val := init; cs_sent := [] |}.
 
